@@ -160,10 +160,12 @@ Ambiguous(s) ==
 
 HasParenSpelling(s) == ~(\E i \in 1..Len(s) : s[i] \in {"(", ")"})
 DescriptionJudge ==
-  (l <= Len(Table) /\ ~Row.panic /\ HasParenSpelling(Row.in) /\ ~Ambiguous(Row.in)) =>
-     /\ ((~Row.err /\ Row.out # NF(Row.in)) => Report(l, "not the normal form"))
+  (l <= Len(Table) /\ ~Row.panic /\ HasParenSpelling(Row.in)) =>
+     \* idempotence is unambiguous for every text
      /\ ((~Row.err /\ Row.out2 # Row.out) => Report(l, "normalising twice changes the text"))
-     /\ ((~Row.err /\ NF(Row.in) # << >> /\ (Row.alterr \/ Row.alt # Row.out)) => Report(l, "parenthesised spelling differs"))
+     /\ (~Ambiguous(Row.in) =>
+           /\ ((~Row.err /\ Row.out # NF(Row.in)) => Report(l, "not the normal form"))
+           /\ ((~Row.err /\ NF(Row.in) # << >> /\ (Row.alterr \/ Row.alt # Row.out)) => Report(l, "parenthesised spelling differs")))
 
 -----------------------------------------------------------------------------
 (* C15: annotations: whitespace runs collapsed, surrounding blanks removed *)
@@ -200,11 +202,11 @@ Judge ==
        [] Fn = "unescape"    -> UnescapeJudge
        [] Fn = "tagname"     -> TagJudge
        [] Fn = "location"    -> LocationJudge
-       [] Fn = "description" -> DescriptionJudge
+       [] Fn \in {"description", "description_lines"} -> DescriptionJudge
        [] Fn = "description_e2e" -> DescriptionE2E
        [] Fn = "annotation"  -> AnnotationJudge
        [] Fn = "annotation_e2e" -> AnnotationE2E
        [] OTHER -> TRUE
 
-Complete == (l = 1 /\ Fn \notin {"location", "description_e2e", "annotation_e2e"}) => (InputsOK(IF Fn = "incname" THEN 1 ELSE 0) \/ Report(0, "table incomplete"))
+Complete == (l = 1 /\ Fn \notin {"location", "description_e2e", "annotation_e2e", "description_lines"}) => (InputsOK(IF Fn = "incname" THEN 1 ELSE 0) \/ Report(0, "table incomplete"))
 =============================================================================
